@@ -16,6 +16,12 @@ from typing import Dict, List, Optional, Set
 from .index import Func, Module, RepoIndex
 
 
+def unprefix(text: str) -> str:
+    """drop the prefixes the helper inliner gives to a helper's locals"""
+    import re
+    return re.sub(r'_[A-Za-z_]+?\d+_(?=[A-Za-z_])', '', text)
+
+
 class NotInlinable(Exception):
     pass
 
@@ -328,3 +334,90 @@ def canon_calls(index: RepoIndex, module: Module, node: ast.AST) -> ast.AST:
                 c.args.append(kw[name].value)
                 c.keywords.remove(kw[name])
     return node
+
+
+# ---------------------------------------------------------------------------
+# expression-level inlining of pure one-expression helpers
+class _SubstNames(ast.NodeTransformer):
+    def __init__(self, mp: Dict[str, ast.AST]):
+        self.mp = mp
+
+    def visit_Name(self, n: ast.Name):
+        if isinstance(n.ctx, ast.Load) and n.id in self.mp:
+            return copy.deepcopy(self.mp[n.id])
+        return n
+
+
+def pure_body_expr(fn: ast.FunctionDef) -> Optional[ast.AST]:
+    """the expression a helper returns when its body is local assignments and one
+    unconditional `return e` (locals expanded); None for anything else"""
+    from .guards import walk_function
+    body = _docless(fn.body)
+    if not body or not isinstance(body[-1], ast.Return) or body[-1].value is None:
+        return None
+    for s in body[:-1]:
+        if not (isinstance(s, (ast.Assign, ast.AnnAssign)) and
+                all(isinstance(t, (ast.Name, ast.Tuple)) for t in
+                    (s.targets if isinstance(s, ast.Assign) else [s.target]))):
+            return None
+    w = walk_function(fn)
+    rets = [e for e in w.events if e.kind == 'return']
+    if len(rets) != 1:
+        return None
+    return w.expand(rets[0].value)
+
+
+def inline_pure_exprs(index: RepoIndex, module: Module, cls, expr: ast.AST,
+                      depth: int = 3) -> ast.AST:
+    """replace calls `self.m(args)` / `helper(args)` of pure one-expression helpers by the
+    helper's expression with the parameters substituted (on a copy)"""
+    if depth <= 0:
+        return expr
+
+    class T(ast.NodeTransformer):
+        def visit_Call(self, c: ast.Call):
+            c = self.generic_visit(c)
+            if any(isinstance(a, ast.Starred) for a in c.args) or \
+                    any(k.arg is None for k in c.keywords):
+                return c
+            target = None
+            skip_self = False
+            if isinstance(c.func, ast.Name):
+                r = index.resolve_callee(module, c.func, None)
+                if isinstance(r, Func) and r.cls is None and not r.node.decorator_list:
+                    target = r
+            elif isinstance(c.func, ast.Attribute) and isinstance(c.func.value, ast.Name) \
+                    and c.func.value.id == 'self' and cls is not None:
+                m = index.method(cls, c.func.attr)
+                if m is not None and not m.node.decorator_list:
+                    target, skip_self = m, True
+            if target is None:
+                return c
+            fn = target.node
+            if fn.args.vararg or fn.args.kwarg:
+                return c
+            e = pure_body_expr(fn)
+            if e is None:
+                return c
+            params = [a.arg for a in fn.args.posonlyargs + fn.args.args]
+            if skip_self:
+                params = params[1:]
+            bound: Dict[str, ast.AST] = dict(zip(params, c.args))
+            for k in c.keywords:
+                bound[k.arg] = k.value
+            defaults = target.param_defaults()
+            for p in params + [a.arg for a in fn.args.kwonlyargs]:
+                if p not in bound:
+                    if defaults.get(p) is None:
+                        return c
+                    bound[p] = defaults[p]
+            # no capture: comprehension targets of the helper must not occur free in args
+            comp_targets = {n.id for g in ast.walk(e) if isinstance(g, ast.comprehension)
+                            for n in ast.walk(g.target) if isinstance(n, ast.Name)}
+            free = {n.id for a in bound.values() for n in ast.walk(a)
+                    if isinstance(n, ast.Name)}
+            if comp_targets & free:
+                return c
+            out = _SubstNames(bound).visit(copy.deepcopy(e))
+            return inline_pure_exprs(index, target.module, target.cls, out, depth - 1)
+    return ast.fix_missing_locations(T().visit(copy.deepcopy(expr)))
